@@ -271,6 +271,19 @@ public:
     void
     popContext();
 
+    /**
+     * Start an isolated scope: until the matching popIsolatedScope(), only
+     * declarations added from now on are found by getNamespaceForPrefix()
+     * and getPrefixForNamespace().  Used when the result goes to another
+     * target (e.g. a result tree fragment), whose namespace declarations must
+     * not depend on what is in scope where it happens to be built.
+     */
+    void
+    pushIsolatedScope();
+
+    void
+    popIsolatedScope();
+
     const XalanDOMString*
     getNamespaceForPrefix(const XalanDOMString&     thePrefix) const;
 
@@ -384,6 +397,14 @@ private:
     NamespacesStackType::iterator   m_stackPosition;
 
     BoolVectorType                  m_createNewContextStack;
+
+    typedef XalanVector<size_type>  SizeTypeVectorType;
+
+    // The number of entries (after the dummy one) that belong to enclosing,
+    // isolated-from scopes, and the saved values for the enclosing scopes.
+    size_type                       m_scopeBase;
+
+    SizeTypeVectorType              m_scopeBaseStack;
 };
 
 
